@@ -501,7 +501,7 @@ def _hard(cls):
     return isinstance(cls, str) and (cls.startswith(HARD_CLASSES) or cls.startswith("panic:")
                                      or "reload" in cls or "sig_invalid" in cls
                                      or "data_loss" in cls or "commit_sync" in cls
-                                     or "HTLC signatures" in cls)
+                                     or "HTLC signatures" in cls or "htlc sig" in cls)
 
 
 def no_errors(row):
